@@ -53,8 +53,11 @@ def run_config(run, exe, name, conf, invariants, env=None, workers=4, cap_tours=
     init = muconf.init_line(conf)
     steps = tlcgraph.write_schedule(sched, g, tours, init, obs_fmt=fmt_mu_obs)
     e = dict(os.environ); e["VERIF_PROP"] = prop
-    if env:
-        e.update(env)
+    if prop != "C03":
+        e.setdefault("VERIF_SOFT", "O-hb")     # ... counted, not fatal, outside C03
+    e.setdefault("VERIF_HB", "1")      # the race detector watches nsync's own plain accesses in every replay: a race (O-hb, C03's oracle) means
+    if env:                            # the atomic-operation granularity of the schedule is too coarse for this code, and triggers exploration
+        e.update(env)                  # at the granularity of plain accesses (below)
     res = run_harness_env(exe, ["replay", sched, REPLAYS], e)
     out.update(res=res, tours=len(tours), steps=steps, sched=sched, init=init, tour_list=tours, env=e)
     out["findings"] = tlcgraph.analyse(g)
@@ -90,6 +93,8 @@ def run_harness_env(exe, args, env, timeout=3000):
             res["viols"].append(line[5:].split("|", 5))
         elif line.startswith("DIVFILE "):
             res.setdefault("divfiles", []).append(line[8:].strip())
+        elif line.startswith("SOFT "):
+            res.setdefault("soft", []).append(line[5:].strip())
         elif line.startswith("MISMATCH ") and res["mismatch"] is None:
             res["mismatch"] = line[9:]
         elif line.startswith("ORD "):
@@ -237,7 +242,10 @@ def run_family(run, exe, prop, configs, parallel=5, workers=3, env=None, cap_tou
                 run.violation(tag, path, "Mu.tla (constants from the code) refutes %s in configuration %s; %s" % (f["name"], name, detail))
             else:
                 run.note("spec-level refutation NOT reproduced on the code (%s): %s" % (tag, detail))
-        if out["res"]["mismatch"]:
+        foreign_ls = sorted(({v[0] for v in out["res"]["viols"]} | {x.split()[1].split("|")[0] for x in out["res"].get("soft", []) if len(x.split()) > 1}) - set(wanted_or) - {"O-crash", "O-harness"})
+        if out["res"].get("soft"):
+            run.note("oracle of another property counted in %s (the replays went on): %s" % (name, out["res"]["soft"][0][:200]))
+        if out["res"]["mismatch"] or foreign_ls:
             # DESIGN 3.7: a divergence is not a violation; it triggers extra exploration of that configuration, judged by oracles only:
             # (1) the diverging behaviours themselves, continued from the point of divergence with random schedules
             continue_divergences(run, exe_bin if conf.get("Binary") else exe, name, out, wanted_or)
@@ -252,7 +260,7 @@ def run_family(run, exe, prop, configs, parallel=5, workers=3, env=None, cap_tou
                     run.violation("%s|%s|explore %s" % (v[0], v[1], name), v[4], v[5]); hit = True
                 else:
                     run.note("oracle of another property fired while exploring %s after a divergence: %s %s: %s" % (name, v[0], v[1], v[5][:160]))
-            foreign = sorted({v[0] for v in resx["viols"]} - set(wanted_or) - {"O-crash", "O-harness"})
+            foreign = sorted(({v[0] for v in resx["viols"]} | set(foreign_ls)) - set(wanted_or) - {"O-crash", "O-harness"})
             if foreign and not hit:
                 # only another property's oracle fired: switch it off and see what the fault does to this property; plain accesses to shared
                 # memory become scheduling points too, since the fault may be a race between plain accesses
